@@ -18,8 +18,8 @@ RULE = ('random object trees (depth 1-3 below the owner: a.x, a.y, a.b.x, a.b.b.
         'detached object may hold a watcher bound to the owner. non-trivial = >= 1 replacement and >= 1 leaf assignment after '
         'it; distinct by (dependency-spec shape, op-kind sequence)')
 PARAMS = {
-    'quick': dict(cases=700, shards=8, maxlen=14),
-    'thorough': dict(cases=30000, shards=16, maxlen=22),
+    'quick': dict(cases=950, shards=8, maxlen=14),
+    'thorough': dict(cases=36000, shards=16, maxlen=22),
 }
 ASSUMPTIONS = [
     'an operation after/before which one of the method\'s paths does not resolve is not judged for that method (the statement '
@@ -28,7 +28,7 @@ ASSUMPTIONS = [
     'owner); unrecognisable callbacks are counted, not judged',
 ]
 REQUIRED = {'ops_judged': 3000, 'replacements': 1000, 'leaf_sets': 1000, 'detached_leaf_sets': 200, 'leak_checks': 2000, 'slot_sets': 300, 'falsy_object_cases': 100, 'on_init_builders': 60,
-            'equal_comparing_object_cases': 50, 'batched_subobject_updates': 300}
+            'equal_comparing_object_cases': 50, 'batched_subobject_updates': 300, 'batched_owner_updates': 200}
 
 _st = {}
 _n = [0]
@@ -359,6 +359,40 @@ def run_case(idx, rng, P, rep):
                     for k, v in kw.items():
                         setattr(o, k, v)
             rep.count('batched_subobject_updates')
+        elif c < 0.64:
+            # one batch on the owner itself: several of a, c (objects with equal or different leaves) and its own p
+            kw = {}
+            if rng.random() < 0.7:
+                olda = top.a
+                if isinstance(olda, Node) and rng.random() < 0.6:
+                    d_old = 1 + (isinstance(olda.b, Node)) + (isinstance(getattr(olda.b, 'b', None), Node))
+                    kw['a'] = new_node(d_old, olda, rng.choice([(), ('x',), ('y',), ('b.x',)]))
+                else:
+                    kw['a'] = new_node(rng.randint(1, 3))
+            if rng.random() < 0.7:
+                oldc = top.c
+                how = rng.choice(['equal', 'differ-x', 'differ-y', 'fresh'])
+                kw['c'] = Leaf(x=oldc.x if oldc is not None and how in ('equal', 'differ-y') else val(),
+                               y=oldc.y if oldc is not None and how in ('equal', 'differ-x') else val())
+            if rng.random() < 0.5:
+                kw['p'] = val() if rng.random() < 0.7 else top.p
+            if len(kw) < 2:
+                continue
+            if rng.random() < 0.5:
+                kw = dict(reversed(list(kw.items())))
+            for pref in ('a', 'c'):
+                if pref in kw and getattr(top, pref) is not None:
+                    detached_pool.append((pref, getattr(top, pref)))
+            kind = 'replace:owner-batch'
+            trace.append((kind, sorted(kw)))
+            if rng.random() < 0.5:
+                top.param.update(**kw)
+            else:
+                with param.parameterized.batch_call_watchers(top):
+                    for k, v in kw.items():
+                        setattr(top, k, v)
+            stats['repl'] += 1
+            rep.count('batched_owner_updates')
         elif c < 0.8:
             # leaf assignment on an attached object
             cands = [o for o in reachable()]
